@@ -159,3 +159,15 @@ Example C12_plog_history :
   (h_plog <$> (match run P0 (pltr ++ [CTick; plrep true []; plrep true [(1,10);(2,7)]]) with Live d => d_hosts d !! 1 | Dead => None end))
     = Some [(1,10);(2,7)].
 Proof. vm_compute. repeat split; reflexivity. Qed.
+
+(** Round 4 note: "exactly that replica" on exactly that NodeHost.  Addresses a1 / a11 and shards 15 / 5 read the same
+    when address and shard id are written next to each other; the failed member (15,1) lives on a1 (live, no log), a11
+    holds a log for (5,1): no restore, the member is replaced. *)
+Definition Xctx : sctx := CTX 1000 [mkSD 15 [1;2;3] 7]
+  [SH 15 5 [REP 15 1 1 935 10; REP 15 51 91 1000 10; REP 15 52 92 1000 10]]
+  [HOST 1 1 1000 [] [15]; HOST 11 1 1000 [(5,1)] []; HOST 91 1 1000 [(15,51)] [15]; HOST 92 1 1000 [] [15]; HOST 95 1 1000 [] []] [].
+Example C12_exact_log_lookalike_address :
+  bool_decide (ctx_wf Xctx) = true ∧
+  allowed P0 Xctx (OBatch [REQ 0 15 [1;51;52] 0 [1;51;52] [1;91;92] 1 1 false true 7]) = false ∧
+  allowed P0 Xctx (OBatch [REQ 2 15 [77] 5 [] [95] 0 91 false false 0]) = true.
+Proof. vm_compute. repeat split; reflexivity. Qed.
